@@ -204,8 +204,12 @@ pub fn run<S: Scheme>(scn: &Scenario, log: &EventLog) -> RunResult {
                         if let Op::Batch { queries } = op {
                             for &(p, zi) in queries {
                                 let v2 = sess.prover.polys[p].polynomial().eval_ref(&pts2[zi]);
-                                if v2 != sess.truth(p, zi) { falsified = true; }
                                 evals2.insert((scn.polys[p].label.clone(), points[zi].clone()), v2);
+                            }
+                            // two point labels may share one point value (one map entry): decide on the
+                            // statement as it finally stands whether it contains a false claim
+                            for &(p, zi) in queries {
+                                if evals2.get(&(scn.polys[p].label.clone(), points[zi].clone())) != Some(&sess.truth(p, zi)) { falsified = true; }
                             }
                         }
                         // prover works at the moved points
